@@ -44,6 +44,12 @@ def main():
         return 2
     except Exception:  # noqa: BLE001
         print(traceback.format_exc()[-3000:], file=sys.stderr)
+        if ctx.violations and not args.replay:
+            # violations were already established (and printed); a later crash of the harness - typically the code under test
+            # raising somewhere the harness did not expect - must not turn them into a machinery failure
+            print(f"[{pid}] harness exception after {len(ctx.violations)} violation(s); reporting the violations", file=sys.stderr)
+            ctx.extra["harness_exception_after_violations"] = traceback.format_exc()[-800:]
+            return ctx.finish()
         print(f"MACHINERY FAILURE [{pid}]: unexpected exception", file=sys.stderr)
         return 2
 
